@@ -1,5 +1,6 @@
 import Pixman.Model.Trap
 import Pixman.Spec.SampleGrid
+import Pixman.Model.TrapWords
 /-! Line-protocol driver for the trapezoid domain (C12).  One request per line, one reply per line.
 
     ceil <y> <n> | floor <y> <n>
@@ -12,7 +13,8 @@ import Pixman.Spec.SampleGrid
     Reply of the raster requests: `M <model image> S <spec image> F <flags>`; flags:
     `c`,`d`,`a` outside the exact region (an int32 wrap can occur; see `edgeExact`), `t` a visited row
     on which the walked abscissa is not the Spec's `snapX`, `f` the a8 span-fill loop differs from the naive loop, `o` out-of-bounds access,
-    `r` runaway loop, `g` (addtri) the triangles' own inside test (`Spec.triCount`) differs from the Spec count of the
+    `r` runaway loop, `w` the word/byte-level rasteriser (`Model/TrapWords.lean`: a1 word masks, a4 nibble read-modify-write, a8 bytes) run on a
+    little-endian byte memory does not decode to the array model's image or touched a padding bit (small requests only), `g` (addtri) the triangles' own inside test (`Spec.triCount`) differs from the Spec count of the
     two-trapezoid decompositions although every triangle satisfies the hypotheses of R5, `-` none. -/
 namespace Driver.Trap
 open Pixman.Trap
@@ -118,6 +120,36 @@ def naiveAll (n w h v : Nat) (setups : List (Option (Int × Int × Edge × Edge)
       if n == 8 then edgesLoop8Naive b (rowFuel 8 t b) t l r img else rasterizeEdges n img l r t b
     | none => img) (Img.mk' w h v)
 
+/-- `Model/TrapWords.lean`'s `rasterizeEdgesW` (a1 word masks, a4 nibble read-modify-write, a8 bytes with the span-fill
+    bookkeeping and flush, over the rows `walkRows` visits; in its array-backed form `rasterizeEdgesWB`) on C10's byte memory: rows of
+    `stride = ⌈w·n/32⌉` words at byte address 64, every pixel position (padding included) initialised to `v`; `true`
+    when some pixel decoded with C10's `fetchRaw` differs from the array model's image `m`, or a padding position or a
+    byte around the image changed.  Small requests only (a4/a8: width ≤ 9 — a read through the closure chain of one row
+    body costs 2^span; the memory is read out after every sample row). -/
+def wordsDiffer (n w h v : Nat) (setups : List (Option (Int × Int × Edge × Edge))) (m : Img) : Bool :=
+  let nY := (Pixman.Gen.SampleGrid.nYFrac n).toNat
+  if m.oob || m.runaway || setups.length > 4 || n == 0 || h == 0 || w == 0 then false else
+  if (n == 1 && (w > 140 || w * h > 2000)) || (n != 1 && (w > 9 || w * h * nY > 700)) then false else
+  let stride := (w * n + 31) / 32
+  let bits := 64
+  let total := 64 + 4 * (h * stride) + 64
+  let byte : Nat := if n == 8 then v % 256 else if n == 4 then (v % 16) * 17 else (v % 2) * 255
+  let a0 : Array Nat := Array.replicate total byte
+  let arr := setups.foldl (fun (arr : Array Nat) s =>
+    match s with
+    | none => arr
+    | some (t, b, l, r) => Pixman.TrapWords.rasterizeEdgesWB total byte n bits stride (w : Int) arr l r t b) a0
+  let mem := Pixman.TrapWords.memOf arr byte
+  let m0 := Pixman.TrapWords.memOf a0 byte
+  let perRow := stride * 32 / n
+  let badPix := (List.range h).any fun r => (List.range perRow).any fun c =>
+    let got := Pixman.Model.Format.fetchRaw mem (bits + 4 * (r * stride)) c n
+    let want := if c < w then (m.rows[r]?.getD #[])[c]?.getD 0 else Pixman.Model.Format.fetchRaw m0 (bits + 4 * (r * stride)) c n
+    got != want
+  let badAround := (List.range 64).any (fun a => mem a != byte) ||
+    (List.range 64).any (fun a => mem (bits + 4 * (h * stride) + a) != byte)
+  badPix || badAround
+
 /-- the Spec triangle in image space, when it satisfies the hypotheses of R5 (`Props.C12.triangle_tiles`):
     coordinates plus offsets fit int32, the differences `clockwise` computes do not wrap, not collinear -/
 def specTri (t : Triangle) (xOff yOff : Int) : Option Tri :=
@@ -142,10 +174,10 @@ def triSpecAll (n w h v : Nat) (tris : List (Option Tri)) : Option (Array (Array
     | _, _ => none) (some (Array.replicate h (Array.replicate w v)))
 
 def reply (n : Nat) (m : Img) (sp : Array (Array Nat) × String) (tie : Bool := false) (naive : Option Img := none)
-    (triSpec : Option (Array (Array Nat)) := none) : String :=
+    (triSpec : Option (Array (Array Nat)) := none) (wf : Bool := false) : String :=
   let nf := match naive with | some q => q.rows != m.rows | none => false
   let gf := match triSpec with | some q => sp.2.isEmpty && q != sp.1 | none => false
-  let fl := dedup sp.2 ++ (if tie then "t" else "") ++ (if nf then "f" else "") ++ (if gf then "g" else "") ++ (if m.oob then "o" else "") ++ (if m.runaway then "r" else "")
+  let fl := dedup sp.2 ++ (if tie then "t" else "") ++ (if nf then "f" else "") ++ (if gf then "g" else "") ++ (if wf then "w" else "") ++ (if m.oob then "o" else "") ++ (if m.runaway then "r" else "")
   s!"M {fmtRows n m.rows} S {fmtRows n sp.1} F {if fl.isEmpty then "-" else fl}"
 
 def fmtEdge (e : Edge) : String :=
@@ -169,7 +201,7 @@ def request : P String := do
     let m := rasterizeTrapezoid n (Img.mk' w h v) tz xo yo
     let sh := shapeOfTrapezoid n h tz xo yo
     pure (reply n m (specAll n w h v [sh]) (walkDiffers n (trapezoidSetup n h tz xo yo) sh)
-      (some (naiveAll n w h v [trapezoidSetup n h tz xo yo])))
+      (some (naiveAll n w h v [trapezoidSetup n h tz xo yo])) (wf := wordsDiffer n w h v [trapezoidSetup n h tz xo yo] m))
   | "addtz" => do
     let n ← nat; let w ← nat; let h ← nat; let v ← nat; let xo ← int; let yo ← int
     let c ← nat; let tzs ← many trapezoid c
@@ -177,7 +209,7 @@ def request : P String := do
     let xo16 := wrap16 xo
     pure (reply n m (specAll n w h v (tzs.map fun tz => shapeOfTrapezoid n h tz xo16 yo))
       (tzs.any fun tz => walkDiffers n (trapezoidSetup n h tz xo16 yo) (shapeOfTrapezoid n h tz xo16 yo))
-      (some (naiveAll n w h v (tzs.map fun tz => trapezoidSetup n h tz xo16 yo))))
+      (some (naiveAll n w h v (tzs.map fun tz => trapezoidSetup n h tz xo16 yo))) (wf := wordsDiffer n w h v (tzs.map fun tz => trapezoidSetup n h tz xo16 yo) m))
   | "addtraps" => do
     let n ← nat; let w ← nat; let h ← nat; let v ← nat; let xo ← int; let yo ← int
     let c ← nat; let ts ← many trap c
@@ -185,7 +217,7 @@ def request : P String := do
     let xo := wrap16 xo; let yo := wrap16 yo
     pure (reply n m (specAll n w h v (ts.map fun t => shapeOfTrap n h t xo yo))
       (ts.any fun t => walkDiffers n (trapSetup n h (intToFixed xo) (intToFixed yo) t) (shapeOfTrap n h t xo yo))
-      (some (naiveAll n w h v (ts.map fun t => trapSetup n h (intToFixed xo) (intToFixed yo) t))))
+      (some (naiveAll n w h v (ts.map fun t => trapSetup n h (intToFixed xo) (intToFixed yo) t))) (wf := wordsDiffer n w h v (ts.map fun t => trapSetup n h (intToFixed xo) (intToFixed yo) t) m))
   | "addtri" => do
     let n ← nat; let w ← nat; let h ← nat; let v ← nat; let xo ← int; let yo ← int
     let c ← nat; let ts ← many triangle c
@@ -195,7 +227,8 @@ def request : P String := do
     pure (reply n m (specAll n w h v (tzs.map fun tz => shapeOfTrapezoid n h tz xo16 yo))
       (tzs.any fun tz => walkDiffers n (trapezoidSetup n h tz xo16 yo) (shapeOfTrapezoid n h tz xo16 yo))
       (some (naiveAll n w h v (tzs.map fun tz => trapezoidSetup n h tz xo16 yo)))
-      (triSpecAll n w h v (ts.map fun t => specTri t xo16 yo)))
+      (triSpecAll n w h v (ts.map fun t => specTri t xo16 yo))
+      (wf := wordsDiffer n w h v (tzs.map fun tz => trapezoidSetup n h tz xo16 yo) m))
   | _ => pure "skip"
 
 def handle (line : String) : String :=
